@@ -9,7 +9,8 @@
 EXTENDS TraceKit, XLOps
 CONSTANTS OpenDevs, Slack
 
-HostUnchanged(o) == \A j \in 1..Len(o.before) : SameDeep(o.before[j], o.after[j]) /\ o.before[j] = o.after[j]
+HostUnchanged(o) == /\ \A j \in 1..Len(o.before) : SameDeep(o.before[j], o.after[j]) /\ o.before[j] = o.after[j]
+                    /\ o.idb = o.ida        \* the same objects in the same places (numbered before the evaluation; 0 = a new object)
 Bounded(ser) == /\ ser[3] - ser[2] <= Slack
                 /\ ser[4] - ser[3] <= Slack
                 /\ ser[4] - ser[2] <= Slack
